@@ -17,7 +17,7 @@ from flipjump.utils.constants import (
     DEFAULT_MAX_MACRO_RECURSION_DEPTH,
     GAP_BETWEEN_PYTHONS_AND_PREPROCESSOR_MACRO_RECURSION_DEPTH,
 )
-from flipjump.utils.exceptions import FlipJumpPreprocessorException, FlipJumpExprException
+from flipjump.utils.exceptions import FlipJumpAssemblerException, FlipJumpPreprocessorException, FlipJumpExprException
 from flipjump.assembler.inner_classes.expr import Expr, int_to_str
 from flipjump.assembler.inner_classes.ops import (
     FlipJump,
@@ -171,10 +171,17 @@ class PreprocessorData:
         self.result_ops.append(new_segment)
 
         self.curr_address = next_segment_start
+        self._assert_curr_address_in_memory()
 
     def insert_reserve(self, reserved_bits_size: int) -> None:
         self.curr_address += reserved_bits_size
+        self._assert_curr_address_in_memory()
         self.result_ops.append(ReserveBits(self.curr_address))
+
+    def _assert_curr_address_in_memory(self) -> None:
+        # a segment / reserve / pad may move the address by any (unbounded) user value: refuse it here, before it is used.
+        if self.curr_address < 0 or self.curr_address > (1 << self.memory_width):
+            raise FlipJumpAssemblerException(f"Not enough space with the {self.memory_width}-bits memory-width.")
 
     def insert_label(self, label: str, code_position: CodePosition, *, address: Optional[int] = None) -> None:
         if address is None:
@@ -215,6 +222,7 @@ class PreprocessorData:
             )
         ops_to_pad = (-self.curr_address // op_size) % ops_alignment
         self.curr_address += ops_to_pad * op_size
+        self._assert_curr_address_in_memory()
         self.result_ops.append(Padding(ops_to_pad))
 
 
